@@ -218,3 +218,64 @@ func ctTraceCase(h *hctx, id int, pts map[int]ctPoint) bool {
 	h.count("c04trace_timer_goroutines", len(inner)-1)
 	return true
 }
+
+// ---------------------------------------------------------------------------------------------------------------
+// C04BIG: reclamation does not depend on how long the consumed prefix is.  Several thousand values are put, read and
+// committed in one go (or the slowest of two consumers, thousands of values behind, is closed) as the LAST state change; then
+// nothing happens any more: the whole prefix must be gone after the cooldown (one run of cleanupLogic removes it, the
+// cleaner's own broadcast cannot trigger a second one).
+// ---------------------------------------------------------------------------------------------------------------
+func init() {
+	register("C04BIG", func(h *hctx) {
+		for i := 0; i < h.n; i++ {
+			cd := time.Duration(0)
+			if i%2 == 1 {
+				cd = time.Duration(1+h.rng.Intn(3)) * time.Millisecond
+			}
+			total := 4500 + h.rng.Intn(9000)
+			b := new(Buffer)
+			*fld[*CleanerConfig](b, "cleaner") = &CleanerConfig{Cleaner: DefaultCleaner, Cooldown: cd}
+			fast, err1 := b.NewConsumer()
+			slow, err2 := b.NewConsumer()
+			if err1 != nil || err2 != nil {
+				h.line("MONITOR C04 big case %d: NewConsumer failed", i)
+				return
+			}
+			vals := make([]interface{}, total)
+			for k := range vals {
+				vals[k] = k
+			}
+			_ = b.Put(context.Background(), vals...)
+			for k := 0; k < total; k++ {
+				if _, err := fast.Get(context.Background()); err != nil {
+					h.line("MONITOR C04 big case %d: Get %d failed: %v", i, k, err)
+					return
+				}
+			}
+			_ = fast.Commit()
+			variant := i % 4 / 2 // 0: the slow consumer reads and commits everything at once; 1: the slow consumer is closed
+			if variant == 0 {
+				for k := 0; k < total; k++ {
+					_, _ = slow.Get(context.Background())
+				}
+				_ = slow.Commit()
+			} else {
+				_ = slow.Close()
+			}
+			// quiet from here on
+			deadline := time.Now().Add(2*cd + 300*time.Millisecond)
+			for b.Size() != 0 && time.Now().Before(deadline) {
+				time.Sleep(200 * time.Microsecond)
+			}
+			if n := b.Size(); n != 0 {
+				h.line("MONITOR C04 %d of %d values that every open consumer has committed past are still held %v after the last state change (cooldown %v, %s)", n, total, 2*cd+300*time.Millisecond, cd, []string{"both consumers committed everything", "the slowest consumer was closed"}[variant])
+			}
+			_ = fast.Close()
+			if variant == 0 {
+				_ = slow.Close()
+			}
+			_ = b.Close()
+			h.count("c04big_cases", 1)
+		}
+	})
+}
